@@ -72,6 +72,8 @@ impl Property for C18 {
             ("feature:stream padding", 5000 * k),
             ("feature:second stream / padding + stream", 5000 * k),
             ("trailing data through a fragmented reader", 20_000 * k),
+            ("trailing data + interrupted reads at the stream end", 20_000 * k),
+            ("SHA-256 file whose blocks are all empty", 30 * k),
         ]
     }
 
@@ -157,6 +159,9 @@ impl Property for C18 {
             }
             st.eval();
             st.class(&format!("feature:{}", feature(&m)));
+            if matches!(m, Mut::BothFlags([0, 0x0A])) && nblocks > 0 && spec.blocks.iter().all(|b| b.content.is_empty()) {
+                st.class("SHA-256 file whose blocks are all empty");
+            }
             if nblocks > 0 {
                 st.nontrivial(&(fh, &m));
             }
@@ -180,6 +185,20 @@ impl Property for C18 {
                 vec![ReaderKind::Slice]
             };
             let mut r = sut::xz_decompress(&mf.bytes, &readers[0], &io);
+            if matches!(m, Mut::Trailing(_)) && r.verdict.is_err() {
+                // a source that reports ErrorKind::Interrupted (retryable) n times in a row
+                // exactly where the first stream ends: Err either way, never success
+                for n in [1usize, 2, 8, 9, 64] {
+                    st.eval();
+                    st.class("trailing data + interrupted reads at the stream end");
+                    let io2 = Io { interrupt_burst: Some((flen, n)), ..Default::default() };
+                    let r2 = sut::xz_decompress(&mf.bytes, &ReaderKind::Chunky { pattern: vec![usize::MAX], stops: vec![flen] }, &io2);
+                    if !r2.verdict.is_err() {
+                        r = r2;
+                        break;
+                    }
+                }
+            }
             for rk in &readers[1..] {
                 if !r.verdict.is_err() {
                     break;
